@@ -69,9 +69,9 @@ def run(ctx):
     ctx.check('KEY-PACKAGE-LIFECYCLE', 'used reference handed to join_with',
               lambda P_: wire(P_, W, r'Group::join_with$', 6, r'^bool::then_some\(.*decrypt_group_info_internal\(.*\)\.1\.reference\)$'), floor=1)
     ctx.check('KEY-PACKAGE-LIFECYCLE', 'join_with schedules it for deletion',
-              lambda P_: wire(P_, 'Group::join_with', r'GroupStateRepository::new$', 3, r'^used_key_package_ref$'), floor=1)
+              lambda P_: wire(P_, 'Group::join_with', r'GroupStateRepository::new$', 3 if cfg != 'B' else 2, r'^used_key_package_ref$'), floor=1)
     ctx.check('KEY-PACKAGE-LIFECYCLE', 'loading from a snapshot schedules nothing',
-              lambda P_: wire(P_, 'Group::from_snapshot', r'GroupStateRepository::new$', 3, r'^Option::None'), floor=1)
+              lambda P_: wire(P_, 'Group::from_snapshot', r'GroupStateRepository::new$', 3 if cfg != 'B' else 2, r'^Option::None'), floor=1)
     R = 'GroupStateRepository::write_to_storage'
     ctx.check('KEY-PACKAGE-LIFECYCLE', 'write_to_storage deletes the scheduled reference',
               lambda P_: wire(P_, R, r'KeyPackageStorage::delete$', 1, r'self\.pending_key_package_removal'), floor=1)
@@ -105,7 +105,7 @@ def run(ctx):
     ctx.check('KEY-PACKAGE-LIFECYCLE', 'a scheduled removal is carried out on every successful write', delete_when_some, floor=1)
     if cfg == 'C':
         ctx.check('KEY-PACKAGE-LIFECYCLE', 'last-resort key packages are kept',
-                  lambda P_: wire(P_, W, r'bool::then_some$', 0, r'Not\(.*last_resort|LastResort|is_last_resort'), floor=1)
+                  lambda P_: wire(P_, W, r'bool::then_some$', 0, r'^Not\(ExtensionList::has_extension\(.*key_package\.extensions'), floor=1)
     # external commit
     X = 'ExternalCommitBuilder::build'
     ctx.check('JOIN-CHECKS', 'external commit: GroupInfo and tree validated before the group exists',
